@@ -7,7 +7,7 @@ input missing without a complete output.  (G) every behaviour of the model is re
 binary at EVERY concrete call position of its kind (learned from a dry run): harness/preload_io.c makes the
 k-th open/read/write/fchown/fchmod/futimens/close/unlink fail or sends the signal right there, and the
 resulting files and exit status must be the ones the model gives for that injection."""
-import bz2, os, random, shutil, signal
+import bz2, json, os, random, re, shutil, signal
 import vlib, campaign, inproc
 
 LEVEL = "fault_enumeration"
@@ -39,7 +39,8 @@ def run_one(exe, shim, scen, keep, env_extra, idx):
         with open(os.path.join(d, iname), "wb") as f:
             f.write(scen["input"])
         mark = os.path.join(d, ".fired")
-        env = {"LD_PRELOAD": shim, "VERIF_IO_MARK": mark}
+        trace = os.path.join(vlib.subdir("c16tr"), "t%d.ndjson" % idx)
+        env = {"LD_PRELOAD": shim, "VERIF_IO_MARK": mark, "VERIF_TRACE": trace}
         env.update(env_extra)
         args = [exe, "-n", "2"] + (["-d"] if scen["dec"] else ["-1"]) + (["-k"] if keep else []) + [iname]
         r = vlib.run(args, env=env, cwd=d, timeout=30)
@@ -71,9 +72,62 @@ def run_one(exe, shim, scen, keep, env_extra, idx):
             out = "complete" if ok else "partial"
         fired = os.path.exists(mark)
         extra = [n for n in os.listdir(d) if n not in (iname, oname, ".fired")]
-        return res, inp, out, r.err, extra, fired
+        return res, inp, out, r.err, extra, fired, trace
     finally:
         shutil.rmtree(d, ignore_errors=True)
+
+
+MAINPATH = ("OpIn", "Cli", "OpOut", "Worked", "Halt", "OutDone", "InRm", "Sti", "StiDone", "InDone", "Exit", "Cleanup", "Terminate",
+            "BailoutMain", "BailoutSub")
+
+
+def validate_paths(rep, results):
+    """One concatenated trace: Plan line, the run's main-path events, End line (what the driver observed)."""
+    d = vlib.spec_workdir("tcrash", ["TraceCrash.tla"])
+    with open(os.path.join(d, "T.cfg"), "w") as f:
+        f.write("SPECIFICATION Spec\nINVARIANTS NotAccepted\nCHECK_DEADLOCK FALSE\n")
+    units = []
+    for scen, keep, st, f, what, (res, inp, out, err, extra, fired, trace) in results:
+        lines = [json.dumps({"e": "Plan", "keep": bool(keep), "fault": f, "what": what})]
+        if os.path.exists(trace):
+            for line in open(trace):
+                m = re.search(r'"e":"(\w+)"', line)
+                if m and m.group(1) in MAINPATH and line.rstrip().endswith("}"):
+                    lines.append(line.strip())
+        lines.append(json.dumps({"e": "End", "res": "killed" if res == "killed" else res, "inp": inp, "out": out}))
+        units.append(("%s%s, %s" % (scen["name"], " -k" if keep else "", what), lines))
+
+    def check(us, tag):
+        cat = os.path.join(d, "cat_%s.ndjson" % tag)
+        with open(cat, "w") as fh:
+            for _, ls in us:
+                fh.write("\n".join(ls) + "\n")
+        r = vlib.tlc(d, "TraceCrash.tla", "T.cfg", env={"TRACE": cat}, workers=1, timeout=900, extra=["-metadir", os.path.join(d, "md_" + tag)])
+        ok = r.violated == ["NotAccepted"]
+        if not ok and not r.rejects and not (r.completed or r.distinct):
+            raise vlib.Infra("TLC failed on %s:\n%s" % (cat, r.text[-1500:]))
+        return ok, r
+    n = sum(len(ls) for _, ls in units)
+    rep.add("main_path_events_validated", n)
+    rep.add("traces_validated_against_impl", len(units))
+    ok, r = check(units, "all")
+    if ok:
+        return []
+    # localise by bisection over units
+    bad, todo = [], [units]
+    while todo and len(bad) < 4:
+        us = todo.pop()
+        ok, r = check(us, "b%d" % len(us))
+        if ok:
+            continue
+        if len(us) == 1:
+            i, ev, why = r.rejects[-1] if r.rejects else (r.distinct, "?", "event not explained by any action")
+            bad.append(("event %s (%s): %s" % (i, ev, why), us[0][0]))
+        else:
+            todo += [us[len(us) // 2:], us[:len(us) // 2]]
+    if not bad:
+        raise vlib.Infra("concatenated main-path trace rejected but every single run accepted")
+    return bad
 
 
 def run(rep, tier, replay):
@@ -123,7 +177,7 @@ def run(rep, tier, replay):
                 if op == "read":
                     faults = [("fail", 5)]
                 elif op == "write":
-                    faults = [("fail", 5), ("fail", 28)]
+                    faults = [("fail", 5), ("fail", 28), ("failsig", 27), ("failsig", 32)]      # EIO, ENOSPC, EFBIG + SIGXFSZ, EPIPE + SIGPIPE
                 else:
                     faults = [("fail", 13 if op in ("open", "unlink") else 5)]
                 for f, errno_ in faults:
@@ -146,7 +200,7 @@ def run(rep, tier, replay):
         return (scen, keep, st, f, what, run_one(exe, shim, scen, keep, env, i))
     results = campaign.parallel(go, list(enumerate(jobs)), par=12)
     seen = set()
-    for scen, keep, st, f, what, (res, inp, out, err, extra, fired) in results:
+    for scen, keep, st, f, what, (res, inp, out, err, extra, fired, trace) in results:
         rep.add("evaluations")
         seen.add((scen["name"], keep, what))
         alts = [b for x in (st if isinstance(st, list) else [st]) for b in exp.get((keep, scen["damaged"], x, f), [])]
@@ -162,6 +216,8 @@ def run(rep, tier, replay):
             want = e["result"]
             if f in ("sigint", "sigterm") and want == "signal":
                 want = "signal%d" % SIGNO[f]
+            if want == "sigfail":
+                want = "signal%d" % (signal.SIGXFSZ if "errno 27" in what else signal.SIGPIPE)
             if res == "hang":
                 return "hang"
             if res != want:
@@ -177,6 +233,8 @@ def run(rep, tier, replay):
                 return "stray files %s" % extra
             elif want in ("exit1", "exit4") and not err:
                 return "no diagnostic"
+            elif want.startswith("signal") and f == "failsig" and err:
+                return "diagnostic %r although the error is EPIPE / EFBIG" % err[:80]
             return None
         whys = [judge(e) for e in alts]
         if scen["damaged"] and f == "kill" and (res, inp, out) == ("exit1", "present", "absent"):
@@ -189,6 +247,11 @@ def run(rep, tier, replay):
                                observed=dict(result=res, inp=inp, out=out), model=e))
             if len(rep.violations) >= 8:
                 break
+    # ---- (V) the main thread's recorded path of every run against spec/TraceCrash.tla
+    if len(rep.violations) < 8:
+        for why, what in validate_paths(rep, results):
+            rep.violation("recorded path is not a behaviour of TraceCrash.tla: %s [%s]" % (why, what),
+                          dict(kind="trace", cls="main-path", reason=why, injection=what))
     rep.cov["distinct_nontrivial"] = len(seen)
     rep.cov["rule"] = "one case per (scenario, -k, call position, fault); all distinct; non-trivial = the injection point was reached (every position comes from a dry run of the same scenario)"
     rep.cov["exhaustive"] = True
